@@ -180,7 +180,61 @@ end C09
 namespace C09
 open Base.Rle
 
-/-! ### `GenomicArrayGlobal`: one run-length array over the concatenated genome; ufuncs are forwarded to it -/
+/-! ### `join_runs` with an arbitrary equality test (IEEE `==` for float arrays is not Lean's `=`) -/
+
+def joinPairsBy {V : Type} (eq : V → V → Bool) : List (Nat × V) → List (Nat × V)
+  | [] => []
+  | [p] => [p]
+  | (e, v) :: (e', v') :: rest =>
+    if eq v v' then joinPairsBy eq ((e', v') :: rest) else (e, v) :: joinPairsBy eq ((e', v') :: rest)
+
+def zipRleBy {α β γ : Type} (eq : γ → γ → Bool) (f : α → β → γ) (a : Rle α) (b : Rle β) : Rle γ :=
+  ofPairs (joinPairsBy eq (zipRuns f (pairsOf a) (pairsOf b)))
+
+/-! ### float arrays: IEEE doubles by bit pattern (Lean `Float` = C double in the compiled driver) -/
+
+structure FVal where
+  bits : UInt64
+
+/-- NumPy `==` on float64: IEEE equality (`-0.0 == 0.0`, `nan != nan`) -/
+def ieeeEq (a b : FVal) : Bool := Float.ofBits a.bits == Float.ofBits b.bits
+
+inductive FOp | add | sub | mul
+inductive FCmp | lt | gt | eq
+
+def FOp.fn (f : FOp) (x y : FVal) : FVal :=
+  let a := Float.ofBits x.bits
+  let b := Float.ofBits y.bits
+  ⟨(match f with | .add => a + b | .sub => a - b | .mul => a * b).toBits⟩
+
+def FCmp.fn (f : FCmp) (x y : FVal) : Bool :=
+  let a := Float.ofBits x.bits
+  let b := Float.ofBits y.bits
+  match f with | .lt => a < b | .gt => a > b | .eq => a == b
+
+def fneg (x : FVal) : FVal := ⟨(-(Float.ofBits x.bits)).toBits⟩
+
+/-- float expression trees (arithmetic; a comparison may sit at the root) -/
+inductive FExpr
+  | leaf (i : Nat)
+  | neg (a : FExpr)
+  | bin (f : FOp) (a b : FExpr)
+  | scr (f : FOp) (a : FExpr) (k : FVal)
+
+def FExpr.eval (leaves : List (Rle FVal)) : FExpr → Rle FVal
+  | .leaf i => leaves.getD i ⟨[0], []⟩
+  | .neg a => mapRle fneg (a.eval leaves)
+  | .bin f a b => zipRleBy ieeeEq f.fn (a.eval leaves) (b.eval leaves)
+  | .scr f a k => mapRle (fun x => f.fn x k) (a.eval leaves)
+
+/-- the same tree on dense arrays (what NumPy computes element by element) -/
+def FExpr.denote (leaves : List (List FVal)) : FExpr → List FVal
+  | .leaf i => leaves.getD i []
+  | .neg a => (a.denote leaves).map fneg
+  | .bin f a b => List.zipWith f.fn (a.denote leaves) (b.denote leaves)
+  | .scr f a k => (a.denote leaves).map (fun x => f.fn x k)
+
+/-! ### `GenomicArrayGlobal` on int64 / bool: typed expression trees; ufuncs are forwarded to the run-length engine -/
 
 structure GArr where
   rle : Rle Int          -- booleans are 0 / 1
@@ -188,36 +242,96 @@ structure GArr where
 
 def b2i (b : Bool) : Int := if b then 1 else 0
 
-/-- value-level meaning of the NumPy ufuncs used in the expression trees -/
-def binFn (f : String) (x y : Int) : Int :=
+inductive BinOp | add | sub | mul | lt | gt | eq | and | or
+inductive UnOp | neg | not
+
+/-- arithmetic needs integer operands, `&` `|` boolean operands (on 0/1 the logical and bitwise meanings coincide);
+comparisons take integers and give booleans. Anything else is outside the model (`none`). -/
+def BinOp.typ (f : BinOp) (aBool bBool : Bool) : Option Bool :=
   match f with
-  | "add" => x + y
-  | "sub" => x - y
-  | "mul" => x * y
-  | "lt" => b2i (decide (x < y))
-  | "gt" => b2i (decide (x > y))
-  | "eq" => b2i (decide (x = y))
-  | "and" => b2i (x != 0 && y != 0)
-  | "or" => b2i (x != 0 || y != 0)
-  | _ => 0
+  | .add | .sub | .mul => if !aBool && !bBool then some false else none
+  | .lt | .gt | .eq => if !aBool && !bBool then some true else none
+  | .and | .or => if aBool && bBool then some true else none
 
-def unFn (f : String) (x : Int) : Int :=
+def BinOp.fn (f : BinOp) (x y : Int) : Int :=
   match f with
-  | "neg" => -x
-  | "not" => b2i (x == 0)
-  | _ => 0
+  | .add => x + y
+  | .sub => x - y
+  | .mul => x * y
+  | .lt => b2i (decide (x < y))
+  | .gt => b2i (decide (x > y))
+  | .eq => b2i (decide (x = y))
+  | .and => b2i (x != 0 && y != 0)
+  | .or => b2i (x != 0 || y != 0)
 
-def resultIsBool (f : String) : Bool := ["lt", "gt", "eq", "and", "or", "not"].contains f
+def UnOp.typ (f : UnOp) (aBool : Bool) : Option Bool :=
+  match f with
+  | .neg => if !aBool then some false else none
+  | .not => if aBool then some true else none
 
-/-- `__array_ufunc__`: inputs' `_global_track` are handed to the run-length engine and the result re-wrapped -/
-def GArr.binary (f : String) (a b : GArr) : GArr := ⟨zipRle (binFn f) a.rle b.rle, resultIsBool f⟩
-def GArr.unary (f : String) (a : GArr) : GArr := ⟨mapRle (unFn f) a.rle, resultIsBool f⟩
-def GArr.scalarR (f : String) (a : GArr) (k : Int) : GArr := ⟨mapRle (fun x => binFn f x k) a.rle, resultIsBool f⟩
-def GArr.scalarL (f : String) (k : Int) (a : GArr) : GArr := ⟨mapRle (fun x => binFn f k x) a.rle, resultIsBool f⟩
+def UnOp.fn (f : UnOp) (x : Int) : Int :=
+  match f with
+  | .neg => -x
+  | .not => b2i (x == 0)
+
+inductive Expr
+  | leaf (i : Nat)
+  | un (f : UnOp) (a : Expr)
+  | bin (f : BinOp) (a b : Expr)
+  | scr (f : BinOp) (a : Expr) (k : Int)      -- array op scalar
+  | scl (f : BinOp) (k : Int) (a : Expr)      -- scalar op array
+
+/-- `__array_ufunc__`: the operands' `_global_track` go to the run-length engine, the result is re-wrapped -/
+def Expr.eval (leaves : List GArr) : Expr → Option GArr
+  | .leaf i => leaves[i]?
+  | .un f a => do
+    let x ← a.eval leaves
+    let t ← f.typ x.isBool
+    pure ⟨mapRle f.fn x.rle, t⟩
+  | .bin f a b => do
+    let x ← a.eval leaves
+    let y ← b.eval leaves
+    let t ← f.typ x.isBool y.isBool
+    pure ⟨zipRle f.fn x.rle y.rle, t⟩
+  | .scr f a k => do
+    let x ← a.eval leaves
+    let t ← f.typ x.isBool false
+    pure ⟨mapRle (fun v => f.fn v k) x.rle, t⟩
+  | .scl f k a => do
+    let x ← a.eval leaves
+    let t ← f.typ false x.isBool
+    pure ⟨mapRle (fun v => f.fn k v) x.rle, t⟩
+
+/-- the same tree on dense arrays -/
+def Expr.denote (leaves : List (List Int × Bool)) : Expr → Option (List Int × Bool)
+  | .leaf i => leaves[i]?
+  | .un f a => do
+    let x ← a.denote leaves
+    let t ← f.typ x.2
+    pure (x.1.map f.fn, t)
+  | .bin f a b => do
+    let x ← a.denote leaves
+    let y ← b.denote leaves
+    let t ← f.typ x.2 y.2
+    pure (List.zipWith f.fn x.1 y.1, t)
+  | .scr f a k => do
+    let x ← a.denote leaves
+    let t ← f.typ x.2 false
+    pure (x.1.map (fun v => f.fn v k), t)
+  | .scl f k a => do
+    let x ← a.denote leaves
+    let t ← f.typ false x.2
+    pure (x.1.map (fun v => f.fn k v), t)
 
 /-- dense expansion as the code does it (`to_array` on int64 words / on booleans) -/
 def denseInt (r : Rle Int) (isBool : Bool) : List Int :=
   if isBool then (toArrayBool (mapRle (· != 0) r)).map b2i else toArrayInt r
+
+/-- values travel as integers: int64 values for kind "int", the unsigned word view for kind "float", 0/1 for "bool" -/
+def denseKind (kind : String) (r : Rle Int) : List Int :=
+  if kind == "float" then ((mapRle Int.toNat r).toArray Nat.xor 0).map Int.ofNat
+  else if kind == "bool" then denseInt r true
+  else toArrayInt r
 
 end C09
 
